@@ -8,6 +8,22 @@ from typing import Callable, Iterable, Iterator
 from .loader import FunctionInfo, Program, dotted, parent, within
 
 
+def clone(node):
+    """Deep copy of an AST fragment by its fields only (does not follow _parent links)."""
+    if isinstance(node, list):
+        return [clone(x) for x in node]
+    if not isinstance(node, ast.AST):
+        return node
+    new = type(node)()
+    for f in node._fields:
+        if hasattr(node, f):
+            setattr(new, f, clone(getattr(node, f)))
+    for a in ("lineno", "col_offset", "end_lineno", "end_col_offset"):
+        if hasattr(node, a):
+            setattr(new, a, getattr(node, a))
+    return new
+
+
 def unwrap(e: ast.AST | None) -> ast.AST | None:
     """Strip value-transparent wrappers: cast(T, x), await x, (x := v) -> v is *not* stripped."""
     while True:
@@ -277,6 +293,87 @@ class Deps:
             if isinstance(child, (ast.expr, ast.keyword, ast.comprehension, ast.FormattedValue)):
                 self._collect(child, out, stack)
 
+    # -------------------------------------------------------------- origins: what a value *is* (not what it was computed from)
+    def origins(self, e: ast.AST | None, _stack: frozenset = frozenset()) -> frozenset[str]:
+        """Heads of the value: `call:<callee>` for call results, `param:<p>`, `attr:<dotted>`, `exc:<h>`,
+        `const`, `global:<x>`; follows local assignments, walrus, await, cast, `a or b`, `x if c else y`
+        but never descends into call arguments."""
+        out: set[str] = set()
+        self._origins(e, out, _stack)
+        return frozenset(out)
+
+    def _origins(self, e: ast.AST | None, out: set[str], stack: frozenset) -> None:
+        e = unwrap(e)
+        if e is None:
+            return
+        if isinstance(e, ast.Constant):
+            out.add("const")
+        elif isinstance(e, ast.Name):
+            owner = self.owner(e.id)
+            if owner is None:
+                r = self.prog.resolve_global(self.fi.module, e.id)
+                out.add(f"global:{r or e.id}")
+                return
+            key = (owner.qualname, e.id)
+            if key in stack:
+                return
+            for kind, node in self.defs(owner, e.id):
+                if kind == "param":
+                    out.add(f"param:{e.id}")
+                elif kind == "exc":
+                    out.add(f"exc:{e.id}")
+                elif kind == "def":
+                    out.add(f"def:{e.id}")
+                elif kind == "iter":
+                    out.add("iter:" + ",".join(sorted(self.origins(node, stack | {key}))))
+                else:
+                    self._origins(node, out, stack | {key})
+        elif isinstance(e, ast.Attribute):
+            d = dotted(e)
+            if d is not None and self.owner(d.split(".")[0]) is not None:
+                out.add(f"attr:{d}")
+                # values stored into that attribute by this very function
+                key = (self.fi.qualname, "." + d)
+                if key not in stack:
+                    for n in self.fi.own_nodes():
+                        if isinstance(n, (ast.Assign, ast.AnnAssign)) and n.value is not None:
+                            tgts = n.targets if isinstance(n, ast.Assign) else [n.target]
+                            if any(dotted(t) == d for t in tgts) and not (isinstance(n.value, ast.Constant) and n.value.value is None):
+                                self._origins(n.value, out, stack | {key})
+            elif d is not None:
+                out.add(f"global:{self.prog.resolve_dotted(self.fi, e) or d}")
+            else:
+                out.add(f"attr:?.{e.attr}")
+        elif isinstance(e, ast.Call):
+            callee = self.prog.resolve_callee(self.fi, e)
+            out.add(f"call:{callee or '?' + (dotted(e.func) or ast.unparse(e.func)[:40])}")
+        elif isinstance(e, (ast.Await, ast.NamedExpr, ast.Starred)):
+            self._origins(e.value, out, stack)
+        elif isinstance(e, ast.BoolOp):
+            for v in e.values:
+                self._origins(v, out, stack)
+        elif isinstance(e, ast.IfExp):
+            self._origins(e.body, out, stack)
+            self._origins(e.orelse, out, stack)
+        elif isinstance(e, ast.Subscript):
+            out.add("item:" + ",".join(sorted(self.origins(e.value, stack))))
+        else:
+            out.add("expr")
+
+    def root_origins(self, e: ast.AST | None) -> frozenset[str]:
+        """origins of the object at the root of an attribute chain: `parent._completed` -> origins(parent);
+        chains rooted at self keep their first attribute: `self._parent._completed` -> {attr:self._parent}."""
+        cur = e
+        chain = []
+        while isinstance(cur, ast.Attribute):
+            chain.append(cur)
+            cur = cur.value
+        if isinstance(cur, ast.Name) and chain:
+            sn = self.prog.self_name(self.fi)
+            if sn and cur.id == sn[0]:
+                return frozenset({f"attr:{cur.id}.{chain[-1].attr}"})
+        return self.origins(cur)
+
     # -------------------------------------------------------------- inlining of single-definition locals
     def single_value(self, name: str) -> ast.AST | None:
         owner = self.owner(name)
@@ -310,6 +407,4 @@ class Deps:
             def visit_NamedExpr(self, n: ast.NamedExpr):  # noqa: N802
                 return self.visit(n.value)
 
-        import copy
-
-        return T().visit(copy.deepcopy(e))
+        return T().visit(clone(e))
